@@ -366,7 +366,10 @@ public:
                   RealScalar tol = 1e-10, SortRule sorting = SortRule::LargestAlge)
     {
         // The m-step Lanczos factorization
-        m_fac.factorize_from(1, m_ncv, m_nmatop);
+        // Continue from the current subspace dimension: it is 1 right after init(), while a repeated
+        // compute() without a new init() carries on from the existing factorization instead of
+        // re-extending it from step 1 with a residual vector that belongs to step ncv
+        m_fac.factorize_from((std::max)(Index(1), m_fac.subspace_dim()), m_ncv, m_nmatop);
         retrieve_ritzpair(selection);
         // Restarting
         Index i, nconv = 0, nev_adj;
